@@ -116,6 +116,20 @@ MC_THOROUGH = [
      dict(conc=1, crash=1, err=1, sync=1),
      ['Crash', 'IOError', 'UnlinkExtra', 'Rename']),
 ]
+# readiness extension (DESIGN.md 5 / 10.6): the live run() loop, `.ready`, the watchdog lease
+RD_INVARIANTS = ['InvRdyRule', 'InvRdyFirstSync', 'InvRdyWatch', 'InvRdyNoExtra', 'InvRdyWd']
+RD_NEED = ['LiveStart', 'CacheNotify', 'ZkExists', 'Sleep', 'Heartbeat', 'PresenceAppears',
+           'PresenceDisappears', 'PlacementAppears', 'PlacementDisappears', 'SyncBegin']
+RD_ONE = dict(insts=['i1'], mvers=[1], pvers=[1], prior=[(1, 1)], newflags=[True])
+RD_TWO = dict(insts=I2, mvers=[1], pvers=[1], prior=[(1, 1)], newflags=[True])
+RD_QUICK = [('ready', RD_ONE, dict(rd=2, hb=2, env=1, sync=3, setup=2))]
+RD_THOROUGH = [('ready', RD_ONE, dict(rd=3, hb=2, env=2, crash=1, sync=5, setup=3)),
+               ('ready2', RD_TWO, dict(rd=2, hb=2, env=1, sync=4, setup=3))]
+# what a reader of `.ready` might expect and the code does not give: TLC must REFUTE these
+RD_IDEAL = [('InvReadyIdeal', RD_ONE, dict(rd=2, hb=1, sync=2, setup=2)),
+            ('InvFollowsIdeal', RD_TWO, dict(rd=2, hb=1, sync=2, setup=3))]
+RDGEN_BOUNDS = dict(setup=5, env=4, rd=4, hb=4, crash=1, sync=99, writes=2, prior=1)
+
 GEN = dict(insts=I3, mvers=[1, 2], pvers=[0, 1, 2], prior=[(1, 1), (2, 2), (1, 0), (2, 1)],
            newflags=[True, False])
 GEN_BOUNDS = dict(setup=7, env=3, conc=2, crash=1, err=1, sync=99, writes=2, prior=1)
@@ -162,8 +176,51 @@ def _mc(ctx, results):
     return cex
 
 
+def _sim_live(ctx):
+    mod, cfg, files = mc_files('rdgen', bounds=RDGEN_BOUNDS, invariants=(), **RD_TWO)
+    behaviours, cmd = tlc.simulate(SPEC_DIR, mod, cfg, num=30 if ctx.quick else 400, depth=45,
+                                   seed=ctx.seed * 37 + 5, procs=3 if ctx.quick else 8,
+                                   extra_files=files, timeout=120 if ctx.quick else 600)
+    return behaviours, cmd
+
+
+def _readiness_mc(ctx, pool):
+    futs = [(name, bounds, pool.submit(
+        lambda n=name, c=consts, b=bounds: tlc.mc(
+            SPEC_DIR, *mc_files(n, bounds=b, invariants=INVARIANTS + RD_INVARIANTS, **c)[:2],
+            extra_files=mc_files(n, bounds=b, invariants=INVARIANTS + RD_INVARIANTS, **c)[2],
+            coverage=True, workers=2 if ctx.quick else 6, timeout=150 if ctx.quick else 800)))
+            for name, consts, bounds in (RD_QUICK if ctx.quick else RD_THOROUGH)]
+    ideal = [(inv, pool.submit(
+        lambda i=inv, c=consts, b=bounds: tlc.mc(
+            SPEC_DIR, *mc_files('ideal_' + i, bounds=b, invariants=[i], **c)[:2],
+            extra_files=mc_files('ideal_' + i, bounds=b, invariants=[i], **c)[2],
+            coverage=False, workers=2, timeout=150)))
+             for inv, consts, bounds in ([] if ctx.quick else RD_IDEAL)]      # thorough tier only
+    return futs, ideal
+
+
+def _readiness_mc_done(ctx, futs, ideal):
+    ext = dict(model_runs=[], refuted_ideals={})
+    for name, bounds, f in futs:
+        res = f.result()
+        ctx.add_mc('NodeCache/%s (readiness extension) %s' % (name, json.dumps(bounds, sort_keys=True)), res,
+                   need_actions=RD_NEED if not res['violated'] else ())
+        ext['model_runs'].append(dict(name=name, distinct=res['distinct'], violated=res['violated']))
+        if res['violated']:
+            ctx.log('readiness MODEL invariant %s violated (extension; design-level only)' % res['violated'])
+    for inv, f in ideal:
+        res = f.result()
+        ctx.cmds.append(res['cmd'])
+        ext['refuted_ideals'][inv] = (['%s(%s)' % (a, b) for a, b in res['cex'] if a not in ('Initial',)]
+                                      if res['violated'] == inv else 'NOT REFUTED')
+        ctx.log('ideal %s: %s' % (inv, 'refuted by the model of the code in %d steps' % len(res['cex'])
+                                  if res['violated'] == inv else 'not refuted'))
+    return ext
+
+
 def _sim(ctx):
-    n_tlc = 90 if ctx.quick else 600
+    n_tlc = 80 if ctx.quick else 600
     mod, cfg, files = mc_files('gen', bounds=GEN_BOUNDS, invariants=(), **GEN)
     behaviours, cmd = tlc.simulate(SPEC_DIR, mod, cfg, num=n_tlc, depth=48 if ctx.quick else 60,
                                    seed=ctx.seed * 31 + 12, procs=6 if ctx.quick else 12,
@@ -173,7 +230,7 @@ def _sim(ctx):
 
 def _gen(ctx, behaviours, cmd):
     """Step 2: behaviours of the same spec + seeded random histories."""
-    n_rnd = 90 if ctx.quick else 600
+    n_rnd = 80 if ctx.quick else 600
     ctx.cmds.append(cmd)
     rng = random.Random(ctx.seed * 7919 + 12)
     out = [('dir', copy.deepcopy(h)) for h in DIRECTED]
@@ -295,7 +352,8 @@ def _show(h):
 def judge(ctx, traces, verdicts):
     by_tid = {t['tid']: t for t in traces}
     violations, nontrivial, flags = [], set(), collections.Counter()
-    evaluations = spontaneous = 0
+    evaluations = spontaneous = ext_lines = 0
+    ext_fail = collections.Counter()
     seen = set()
     for v in sorted(verdicts, key=lambda x: (x['tid'], x['i'])):
         t = by_tid[v['tid']]
@@ -304,6 +362,11 @@ def judge(ctx, traces, verdicts):
         evaluations += 1
         if any(f.startswith('drift.') for f in fails):
             ctx.drift += 1
+        for f in fails:
+            if f.startswith('ext.'):
+                ext_fail[f] += 1
+        if t['src'] in ('live', 'tlclive'):
+            ext_lines += 1
         if line['ev'] == 'SyncExc' and not line.get('injected'):
             spontaneous += 1
         for f in v['ex']:
@@ -331,6 +394,13 @@ def judge(ctx, traces, verdicts):
     if ctx.drift:
         print('DRIFT: %d recorded calls are not the step NodeCache.tla takes there (the write path '
               'changed shape; spec needs updating; not a violation)' % ctx.drift)
+    if ext_fail:
+        print('DRIFT: readiness extension (ext.ready.*, beyond the listed property; not a violation): %s'
+              % dict(ext_fail))
+    extensions = dict(getattr(ctx, 'ext', {}) or {})
+    extensions.update(clauses=['ext.ready.step', 'ext.ready.rule', 'ext.ready.firstSync', 'ext.ready.wd'],
+                      lines_judged=ext_lines, unexplained=dict(ext_fail),
+                      exercised={k: n for k, n in flags.items() if k.startswith('ext.')})
     if spontaneous:
         print('NOTE: _synchronize raised %d times without an injected error' % spontaneous)
     return core.conclude(
@@ -340,19 +410,30 @@ def judge(ctx, traces, verdicts):
         extra=dict(trace_sources=dict(collections.Counter(t['src'] for t in traces)),
                    exercised=dict(flags), spontaneous_exceptions=spontaneous,
                    crash_cuts=flags.get('crash', 0), ioerr_cuts=flags.get('ioerr', 0),
-                   notes=ctx.notes))
+                   extensions=dict(readiness=extensions), notes=ctx.notes))
 
 
 def run(ctx):
     # model checking runs and the simulation are independent TLC processes: overlap them
     confs = MC_QUICK if ctx.quick else MC_THOROUGH
-    with concurrent.futures.ThreadPoolExecutor(len(confs) + 1) as pool:
+    with concurrent.futures.ThreadPoolExecutor(len(confs) + 8) as pool:
         fsim = pool.submit(_sim, ctx)
+        flive = pool.submit(_sim_live, ctx) if not ctx.quick else None      # thorough tier only
         fmc = [pool.submit(_mc_one, ctx, name, consts, bounds) for name, consts, bounds, _ in confs]
+        rdf, rdi = _readiness_mc(ctx, pool)
         results = [f.result() for f in fmc]
         behaviours, cmd = fsim.result()
-    cex = _mc(ctx, results)
+        live_b, live_cmd = flive.result() if flive else ([], '')
+        cex = _mc(ctx, results)
+        ctx.ext = _readiness_mc_done(ctx, rdf, rdi)
     gen = _gen(ctx, behaviours, cmd)
+    # readiness extension: the live run() loop (no cuts)
+    if live_cmd:
+        ctx.cmds.append(live_cmd)
+    rng = random.Random(ctx.seed * 104729 + 3)
+    live = [('tlclive', drv.from_labels(b)) for b in live_b]
+    live = [(s, h) for s, h in live if any(e[0] == 'Live' for e in h)]
+    live += [('live', drv.gen_live(rng, insts=rng.choice([1, 2, 3]))) for _ in range(30 if ctx.quick else 500)]
     ctx.log('%d histories (%d from TLC)' % (len(gen) + len(cex), sum(1 for s, _ in gen if s == 'tlc') + len(cex)))
     if ctx.quick:
         # sampled cuts: 3 per history
@@ -364,6 +445,7 @@ def run(ctx):
         for s, h in gen:
             count[s] += 1
             hists.append((s, h, 'all' if count[s] <= 200 else '3'))
+    hists += [(s, h, 'none') for s, h in live]
     traces = _record(ctx, hists)
     ctx.log('recorded %d traces (%d with a cut), %d lines' % (
         len(traces), sum(1 for t in traces if t['src'].endswith('+cut')),
@@ -387,6 +469,9 @@ def replay(ctx, path):
 
 # ---------------------------------------------------------------------------
 # ./check C12 --selftest : the binding is demonstrated, not assumed (DESIGN 4.4)
+SELFTEST_LIVE = [['SetMan', 'i1', 1], ['Place', 'i1', 1, False], ['Boot'],
+                 ['Live', [['Heartbeat'], ['PlacementDisappears'], ['Heartbeat']]]]
+
 SELFTEST_HISTORY = [
     ['PriorFile', 'i3', 1, 1], ['PriorFile', 'i1', 1, 1], ['Place', 'i1', 2, True], ['Place', 'i2', 1, False],
     ['SetMan', 'i1', 2], ['SetMan', 'i2', 1], ['Boot'], ['Sync', {}]]
@@ -456,10 +541,37 @@ def selftest(ctx):
     cases = _corruptions(lines)
     traces = good + [dict(src='corrupt', tid='corrupt:%d' % k, history=SELFTEST_HISTORY, log_from=0, lines=ls)
                      for k, (_, _, _, ls) in enumerate(cases)]
+    # readiness extension: corrupt the trace of a live run() loop
+    live = drv.replay(SELFTEST_LIVE)
+    slp = max(k for k, l in enumerate(live) if l['ev'] == 'Sleep')
+    cn = max(k for k, l in enumerate(live) if l['ev'] == 'CacheNotify')
+    ext_cases = []
+    for name, clause, k, fn in [
+            ('ext: `.ready` missing when the loop goes to sleep', 'ext.ready.rule', slp,
+             lambda l: l['post']['dir'].pop('.ready')),
+            ('ext: watchdog lease missing when the loop goes to sleep', 'ext.ready.wd', slp,
+             lambda l: l['post'].__setitem__('wd', False)),
+            ('ext: _cache_notify called with the opposite flag', 'ext.ready.step', cn,
+             lambda l: l.__setitem__('args', [not l['args'][0]]))]:
+        ls = copy.deepcopy(live)
+        fn(ls[k])
+        ext_cases.append((name, clause, k, ls))
+    traces.append(dict(src='live', tid='livegood:0', history=SELFTEST_LIVE, log_from=0, lines=live))
+    traces += [dict(src='live', tid='livebad:%d' % k, history=SELFTEST_LIVE, log_from=0, lines=ls)
+               for k, (_, _, _, ls) in enumerate(ext_cases)]
     verdicts = _validate(ctx, traces, timeout=300)
     fails = collections.defaultdict(dict)
     for v in verdicts:
         fails[v['tid']][v['i']] = set(v['fail'])
+    if any(fails['livegood:0'].values()):
+        ctx.log('SELFTEST FAILED: the uncorrupted live trace is not clean: %r' % fails['livegood:0'])
+        ok = False
+    for k, (name, clause, idx, _) in enumerate(ext_cases):
+        got = fails['livebad:%d' % k].get(idx, set())
+        ctx.log('corruption %-70s -> line %d: %s' % (name, idx, sorted(got)))
+        if clause not in got or any(f.startswith('C12.') for f in got):
+            ctx.log('SELFTEST FAILED: expected %s and no property clause' % clause)
+            ok = False
     if any(fails['good:0'].values()):
         ctx.log('SELFTEST FAILED: the uncorrupted trace is not clean: %r' % fails['good:0'])
         ok = False
